@@ -12,9 +12,9 @@ use serde_json::{Value, json};
 use std::collections::{BTreeMap, BTreeSet};
 
 pub fn meta(rep: &mut Report) {
-    rep.rule = "complete witnesses: 0-2 states over {bv1, bv3, bv64, bv65, array 1->2, 2->1, 3->8} (arrays with 0-4 recorded indices incl. data 0, unsorted and repeated indices, nonzero default, sparse and dense representation), 0-2 bit-vector inputs over {1,3,64,65}, 1-3 frames, failed sets = non-empty subsets of {0,1,7}, names None / simple / with $ . [ ] (sub-class: names containing @ or #); values swept over the boundary alphabet (every value of every type appears as a state value and as an input value in the first and in a later frame); and all concatenations of 1-3 witnesses of a reduced set read with parse_witnesses(n) for n = 1, count, count+1. Each witness: witness_to_string -> parse_witness; field-wise comparison, arrays compared at every recorded index. distinct_nontrivial = distinct witness texts that were read back.".into();
+    rep.rule = "complete witnesses: 0-2 states over {bv1, bv3, bv64, bv65, array 1->2, 2->1, 3->8} (arrays with 0-4 recorded indices incl. data 0, unsorted and repeated indices, nonzero default, sparse and dense representation), 0-2 bit-vector inputs over {1,3,64,65}, 0-3 frames (0 = a zero-step witness: initial frame only), sparse array states with index widths 8, 32, 63, 64, 65, 128 (indices 0, max, msb-only, 5), failed sets = non-empty subsets of {0,1,7}, names None / simple / with $ . [ ] (sub-class: names containing @ or #); values swept over the boundary alphabet (every value of every type appears as a state value and as an input value in the first and in a later frame); and all concatenations of 1-3 witnesses of a reduced set read with parse_witnesses(n) for n = 1, count, count+1. Each witness: witness_to_string -> parse_witness; field-wise comparison, arrays compared at every recorded index. distinct_nontrivial = distinct witness texts that were read back.".into();
     rep.assumptions = vec![
-        "complete witnesses only: non-empty failed set, at least one frame, a value for every input in every frame".into(),
+        "complete witnesses only: non-empty failed set, a value for every input in every frame; a zero-step witness (initial frame only, the printer emits no `@` frame) is in the space only when it has a state and no inputs - input names live in `@` frames, and a text without any frame is not a witness of the format".into(),
         "a None name is expected back as the printer's default `state_<i>` / `input_<i>`".into(),
         "an array state without recorded indices has no text representation: it is expected back as no value / an empty entry set, its name is not compared, and when it is the last state the init vector may be shorter".into(),
         "array inputs are not printable (documented todo!) and are outside the space; names with whitespace are outside the space".into(),
@@ -196,7 +196,10 @@ pub fn compare(spec: &WSpec, got: &Witness) -> Option<(String, String)> {
                 }
                 for ix in want_idx.iter() {
                     let want = a.select(ix);
-                    let g = baa_to_bv(&ga.select(&bv_to_baa(ix)));
+                    let g = match catch(|| baa_to_bv(&ga.select(&bv_to_baa(ix)))) {
+                        Ok(g) => g,
+                        Err(p) => return Some((format!("array-entry-unreadable|{tc}|{}", p.file()), format!("state {i}: entry [{}] of the array read back cannot be looked up: ArrayValue::select panics: {} ({})", ix.v, p.msg, p.short_loc()))),
+                    };
                     if g != want {
                         return Some((format!("array-entry|{tc}|"), format!("state {i}: entry [{}] = {} is read back as {}", ix.v, want.show(), g.show())));
                     }
@@ -245,7 +248,15 @@ pub fn check_one(spec: &WSpec) -> Result<String, (String, String)> {
     let w = spec.build();
     let text = match catch(|| witness_to_string(&w)) {
         Ok(t) => t,
-        Err(p) => return Err((format!("panic-print|{}||", p.file()), format!("witness_to_string panicked: {} ({})", p.msg, p.short_loc()))),
+        Err(p) => {
+            // index-width class of the widest array state (baa cannot look up sparse entries above 64 bits)
+            let ic = match spec.states.iter().filter_map(|(_, v)| if let SVal::Arr { iw, .. } = v { Some(*iw) } else { None }).max() {
+                None => "",
+                Some(iw) if iw <= 64 => "idx<=64",
+                Some(_) => "idx65+",
+            };
+            return Err((format!("panic-print|{}|{ic}|", p.file()), format!("witness_to_string panicked: {} ({})", p.msg, p.short_loc())));
+        }
     };
     let got = match catch(|| parse_witness(&mut text.as_bytes())) {
         Ok(Ok(g)) => g,
@@ -495,7 +506,11 @@ pub fn enumerate(thorough: bool) -> Vec<WSpec> {
     let mut n = 0usize;
     for sc in state_cfgs.iter() {
         for ic in input_cfgs.iter() {
-            for nframes in 1..=3usize {
+            for nframes in 0..=3usize {
+                // a zero-step witness has no place for input names, and without states no frame at all
+                if nframes == 0 && (!ic.is_empty() || sc.is_empty()) {
+                    continue;
+                }
                 for (fi, failed) in failed_sets.iter().enumerate() {
                     // quick: failed sets rotate with the shape; thorough: full product
                     if !thorough && (fi + n) % 4 != 0 {
@@ -564,6 +579,25 @@ pub fn enumerate(thorough: bool) -> Vec<WSpec> {
             }
         }
     }
+    // (d) zero-step witnesses (initial frame only) and array states with wide indices (sparse only)
+    for nk in [0usize, 1, 2] {
+        out.push(WSpec { failed: vec![0], states: vec![(names(nk, "s", 0), SVal::Bv(Bv::from_u64(3, 5)))], inputs: vec![], frames: vec![] });
+        out.push(WSpec { failed: vec![1, 7], states: vec![(names(nk, "s", 0), SVal::Bv(Bv::from_u64(1, 1))), (names(1, "m", 1), arr_alphabet(2, 1)[9].clone())], inputs: vec![], frames: vec![] });
+    }
+    for iw in [8u32, 32, 63, 64, 65, 128] {
+        for dw in [1u32, 3] {
+            let top = Bv::new(iw, pvcore::bv::pow2(iw - 1));
+            let max = Bv::ones(iw);
+            let idx = [Bv::zero(iw), max.clone(), top.clone(), Bv::from_u64(iw, 5)];
+            for (k, (default, n_idx)) in [(0u64, 4usize), (1, 2), (0, 1), (1, 0)].into_iter().enumerate() {
+                let indices: Vec<Bv> = idx.iter().skip(k % 2).take(n_idx).cloned().collect();
+                let stores: Vec<(Bv, Bv)> = indices.iter().enumerate().map(|(j, i)| (i.clone(), Bv::from_u64(dw, ((j + k) % 2) as u64 * ((1u64 << dw) - 1)))).collect();
+                let arr = SVal::Arr { iw, dw, default: Bv::from_u64(dw, default), stores, indices, dense: false };
+                out.push(WSpec { failed: vec![0], states: vec![(names(1, "s", 0), SVal::Bv(Bv::from_u64(3, 2))), (names(k % 3, "mem", 1), arr.clone()), (names(1, "t", 2), SVal::Bv(Bv::from_u64(1, 1)))], inputs: vec![(names(1, "i", 0), 3)], frames: vec![vec![Bv::from_u64(3, 1)], vec![Bv::from_u64(3, 6)]] });
+                out.push(WSpec { failed: vec![1], states: vec![(names(2, "mem", 0), arr)], inputs: vec![], frames: vec![vec![]] });
+            }
+        }
+    }
     out
 }
 
@@ -572,6 +606,7 @@ fn concat_base() -> Vec<WSpec> {
     let arr = arr_alphabet(2, 1);
     vec![
         WSpec { failed: vec![0], states: vec![], inputs: vec![], frames: vec![vec![]] },
+        WSpec { failed: vec![1], states: vec![(Some("z".into()), SVal::Bv(Bv::from_u64(3, 6)))], inputs: vec![], frames: vec![] },
         WSpec { failed: vec![1, 7], states: vec![(Some("s".into()), SVal::Bv(Bv::from_u64(3, 5)))], inputs: vec![], frames: vec![vec![], vec![]] },
         WSpec { failed: vec![7], states: vec![], inputs: vec![(None, 1)], frames: vec![vec![Bv::from_u64(1, 1)], vec![Bv::from_u64(1, 0)]] },
         WSpec { failed: vec![0, 1], states: vec![(None, arr[arr.len() / 2].clone()), (Some("$x.y[1]".into()), SVal::Bv(Bv::from_u64(65, 1 << 40)))], inputs: vec![(Some("i".into()), 64), (Some("j".into()), 3)], frames: vec![vec![Bv::from_u64(64, u64::MAX), Bv::from_u64(3, 2)]] },
